@@ -10,7 +10,8 @@ EXPLANATION = (
     "destructuring; a StateId hole must carry the module's ARRAY_START exactly once -- none needed where it is 0 --, id holes must carry none), ARGBASE (get_lookup_tables / get_subwords receive the module's own ARRAY_START), "
     "ROLE (in every `[k]=v` cell k and v are element .0 and .1 of the same iteration), FF (the dfa.rs getters build their rows from the fields C04 names: literal text, description, next state, level index = the symbol's "
     "fallback level, cell key = the source state; ids = position in the decreasing-length order + base; one command-id set is shared by the main and all within-word tables), "
-    "ISOCOV (every MatchTransitions/CompletionTransitions field printed by some shell's shared-shape function is compared by isomorphic_to and hashed by shape_hash; grouping is never by hash alone), "
+    "ISOCOV (every MatchTransitions/CompletionTransitions field printed by some shell's shared-shape function is bound on both sides of isomorphic_to and the two bindings meet in an ==/!= comparison; in every emitter the chunk_by closure's value is "
+    "the isomorphic_to result and its early returns are `false`, so no two within-word automata share a table set unless isomorphic_to agrees; what shape_hash covers and whether ids are sorted by it only changes how much is shared and is reported as an advisory), "
     "NAMES (every generated function that is called is defined under the same name pattern and vice versa; the registration line names the command and the defined entry function), "
     "FLAGS (the flag under which a table is built is the flag under which the code reading it is emitted). "
     "NOT decided: that the tables equal the automaton value by value for a given grammar; the reader logic of fish/zsh/pwsh."
@@ -202,24 +203,93 @@ def isocov(repo, res, rule="ISOCOV"):
                         bt = TY.strip(tyr.of(n["base"], envs.get(id(n))))
                         if bt in ("MatchTransitions", "CompletionTransitions"):
                             printed.setdefault(bt, {}).setdefault(n["member"], set()).add(mod)
+        is_hash = fq.endswith("shape_hash")
         for st, fields in sorted(printed.items()):
             for f, mods in sorted(fields.items()):
                 ig = f in ignored.get(st, set()) or ".." in ignored.get(st, set())
-                res.check(not ig, rule, f"{rule}:{fq}:{st}.{f}", f"{st}.{f} is printed by the shape function of {sorted(mods)} and is " + ("IGNORED here: automata differing only in it would share one table set" if ig else "taken into account"), fn.loc())
-    # grouping never by hash alone
+                if is_hash:
+                    # the hash only decides which automata end up adjacent before chunk_by; a coarser or finer hash changes how much is
+                    # shared, never what a script contains: not a condition of C04, reported as an observation only
+                    if ig:
+                        res.advisory(f"{fq} ignores {st}.{f} (printed by {sorted(mods)}): automata equal up to it are grouped less often; isomorphic_to decides correctness")
+                    continue
+                why = f"{st}.{f} is printed by the shape function of {sorted(mods)} and is "
+                if ig:
+                    res.bad(rule, f"{rule}:{fq}:{st}.{f}", why + "IGNORED here: automata differing only in it would share one table set", fn.loc())
+                    continue
+                ok, how = compared(fn, st, f)
+                res.check(ok, rule, f"{rule}:{fq}:{st}.{f}", why + (f"compared ({how})" if ok else f"bound but never compared: {how}"), fn.loc())
+    # grouping: isomorphic_to has the last word
     for mod in RE.EMITTERS:
         fn = repo.fn(f"{mod}::write_completion_script")
         if fn is None:
             continue
         cb = [c for c in P.find_calls(fn.body, methods={"chunk_by"})]
         ok = len(cb) == 1 and cb[0]["args"] and cb[0]["args"][0]["k"] == "Closure"
+        why = "one chunk_by with a closure"
         if ok:
             body = cb[0]["args"][0]["body"]
-            ok = any(True for _ in P.find_calls(body, methods={"isomorphic_to"})) and "!=" in repo.text(fn.file, body)
-            v = A.resolve(body, A.collect_envs(fn).get(id(body)))
-        res.check(ok, rule, f"{rule}:{mod}:chunk_by", "chunks are formed by hash equality AND isomorphic_to", fn.loc())
+            ok, why = iso_decides(body)
+        res.check(ok, rule, f"{rule}:{mod}:chunk_by", f"two within-word automata share a table set only if isomorphic_to says so: {why}", fn.loc())
         srt = [c for c in P.find_calls(fn.body, methods={"sort_by_key", "sort_unstable_by_key"}) if "hash" in repo.text(fn.file, c)]
-        res.check(len(srt) >= 1, rule, f"{rule}:{mod}:sorted-by-hash", "ids are sorted by shape hash before chunking (equal shapes adjacent)", fn.loc())
+        if not srt:
+            res.advisory(f"{mod}::write_completion_script no longer sorts ids by shape hash before chunk_by: equal shapes need not be adjacent (less sharing, same behaviour)")
+
+
+def _names_in(n):
+    return {x["path"] for x in A.walk(n) if x["k"] == "Path" and "::" not in x["path"]}
+
+
+def compared(fn, st, f):
+    """isomorphic_to: field f of struct st is bound on both sides and the two bindings meet in one ==/!= comparison that comes
+    after both patterns and before the names are bound again."""
+    pats = sorted((n for n in A.walk(fn.body) if n["k"] == "PStruct" and P.last(n["path"]) == st), key=lambda n: (n["l"], n.get("c", 0)))
+    if len(pats) != 2:
+        return False, f"{len(pats)} destructurings of {st} (expected one per side)"
+    names = []
+    for pt in pats:
+        for fld in pt["fields"]:
+            if fld["name"] == f and fld["pat"]["k"] == "PIdent":
+                names.append(fld["pat"]["name"])
+    if len(names) != 2:
+        return False, f"{st}.{f} is not bound to a name on both sides"
+    start = pats[1]["l"]
+    later = [n["l"] for n in A.walk(fn.body) if n["k"] == "PStruct" and n["l"] > start and any(fl["pat"]["k"] == "PIdent" and fl["pat"]["name"] in names for fl in n["fields"])]
+    end = min(later) if later else 10 ** 9
+    for n in A.walk(fn.body):
+        if n["k"] == "Binary" and n["op"] in ("!=", "==") and start < n["l"] < end:
+            ns = _names_in(n)
+            if names[0] in ns and names[1] in ns:
+                return True, f"{names[0]} {n['op']} {names[1]}"
+    return False, f"no ==/!= between {names[0]} and {names[1]}"
+
+
+def iso_decides(body):
+    """chunk_by closure: its value is the isomorphic_to call (possibly `cond && iso`), and every early return gives false."""
+    tail = body
+    if body["k"] == "Block":
+        st = body["stmts"]
+        if not st or st[-1]["k"] != "ExprStmt" or st[-1]["semi"]:
+            return False, "the closure has no tail expression"
+        tail = st[-1]["expr"]
+
+    def has_iso(e):
+        if e["k"] == "MethodCall" and e["method"] == "isomorphic_to":
+            return True
+        if e["k"] == "Binary" and e["op"] == "&&":
+            return has_iso(e["left"]) or has_iso(e["right"])
+        if e["k"] == "Paren":
+            return has_iso(e["expr"])
+        return False
+
+    if not has_iso(tail):
+        return False, "the closure's value is not the isomorphic_to(..) result"
+    for n in A.walk(body):
+        if n["k"] == "Return":
+            e = n.get("expr")
+            if not (e and e["k"] == "Lit" and str(e.get("v")).lower() == "false"):
+                return False, f"early `return` at line {n['l']} that is not `return false`"
+    return True, "value = isomorphic_to(..), early returns are all `false`"
 
 
 DEF_RE = {
@@ -331,10 +401,10 @@ def run(repo, res, tier):
     isocov(repo, res)
     names_rule(repo, res)
     shared_cmd_ids(repo, res)
-    res.floor("DIM", res.count("DIM"), 96)
+    res.floor("DIM", res.count("DIM"), 90)  # 96 on the unchanged tree; a little room for a table that is legitimately dropped
     res.floor("ROLE", res.count("ROLE"), 14)
     res.floor("ARGBASE", res.count("ARGBASE"), 12)
     res.floor("FF", res.count("FF"), 30)
-    res.floor("ISOCOV", res.count("ISOCOV"), 20)
+    res.floor("ISOCOV", res.count("ISOCOV"), 12)  # 8 printed fields x isomorphic_to + 4 chunk_by closures
     res.floor("NAMES", res.count("NAMES"), 40)
     res.floor("FLAGS", res.count("FLAGS"), 16)
